@@ -1,4 +1,5 @@
 import Tickit.Proof.Modes
+import Tickit.Proof.ModesW
 import Tickit.Gen.ModeLayout
 /-
   C12 — Every terminal mode switched on is switched off again by pause/teardown.
@@ -489,7 +490,8 @@ example : getctlInt (sysAfter Cfg.repaired false [.ctl (some .cursorshape) 2, .r
 
 /-! ### the mode state at hand-over as a parameter: a terminal handed over with its cursor hidden -/
 
-/-- **handover_restores** (full statement; open for a hidden cursor, see `handover_restores_partial`).  The mode
+/-- **handover_restores** (full statement; proved at the end of this file: `handover_restores`,
+    `handover_restores_history_partial`; `handover_restores_partial` is the earlier per-ending form).  The mode
     state the terminal is handed over in is a parameter of the history, not a constant: for every such state
     (`VModes.handover`: cursor visible or hidden), every history inside the contract whose replies are those of
     that terminal and which leaves cursor visibility alone when the cursor was handed over hidden
@@ -963,7 +965,8 @@ theorem validFromW_extends : ∀ (ops : List Op) (ph ph' : Phase), validFrom ph 
         exact validFromW_extends rest p1 ph' h
     · cases h
 
-/-- The full clause over the wide protocol (operations between pause and resume admitted). -/
+/-- The full clause over the wide protocol (operations between pause and resume admitted); proved below:
+    `teardown_restores_w`, `teardown_restores_w_partial`. -/
 def TeardownRestoresW (cfg : Cfg) : Prop :=
   ∀ (toplevel : Bool) (m0 : VModes) (ops : List Op) (ph : PhaseW), m0.standard = true →
     validFromW .running ops = some ph →
@@ -993,5 +996,169 @@ theorem paused_ops_restored_example :
 set_option maxRecDepth 16000 in
 example : modesShown (vtAfter Cfg.repaired false {} (pausedMouseHistory ++ [.ctl (some .altscreen) 0, .resume])).modes
     (ghostAfter Cfg.repaired false (pausedMouseHistory ++ [.ctl (some .altscreen) 0, .resume])) = true := by decide
+
+/-! ## The two history-level statements, closed (`Proof/ModesW.lean`)
+
+  `MInv` ("shown while running, off otherwise") does not survive operations between pause and resume, and its `Shown` /
+  `Off` assume a visible start.  The invariant that does (`WInv`) carries `CovH v0`: every listed mode that is on at the
+  terminal is on in the shadow, relative to the hand-over cursor visibility `v0` - kept by every operation in every
+  phase of the wide protocol, by replies whenever libtermkey hands them on (also those buffered while it was stopped),
+  and by the toplevel instance's setup run while paused. -/
+
+theorem handover_of_standard (m0 : VModes) (h : m0.standard = true) : m0.handover = true ∧ m0.cursorVisible = true := by
+  simp only [VModes.standard, Bool.and_eq_true, Bool.not_eq_true', beq_iff_eq] at h
+  simp only [VModes.handover, Bool.and_eq_true, Bool.not_eq_true', beq_iff_eq]
+  exact ⟨⟨⟨⟨h.1.1.1.1, h.1.1.2⟩, h.1.2⟩, h.2⟩, h.1.1.1.2⟩
+
+/-- **teardown_restores_w_partial.**  `TeardownRestoresW` for every history that does not switch the application keypad
+    on where the tree does not record it (`KeypadTriggerFree`; the RGB8 guard is not needed for restoration). -/
+theorem teardown_restores_w_partial (cfg : Cfg) (hr : cfg.repliesGuarded = true) (toplevel : Bool) (m0 : VModes)
+    (ops : List Op) (ph : PhaseW) (hm0 : m0.standard = true) (hv : validFromW .running ops = some ph)
+    (hnt : KeypadTriggerFree cfg toplevel ops) :
+    ((ph = .paused ∨ ph = .stopped) → restoredOk (vtAfter cfg toplevel m0 ops) m0 = true) ∧
+    restoredOk (VT.feed (vtAfter cfg toplevel m0 ops) (sysAfter cfg toplevel ops).destroy) m0 = true := by
+  obtain ⟨h1, h2⟩ := handover_of_standard m0 hm0
+  exact restoresW cfg toplevel m0 ops ph h1 (fun _ => hr) hv hnt (fun hc => by rw [h2] at hc; cases hc)
+
+/-- **teardown_restores_w** (the full statement): whatever the program does between pause and resume, or between pause
+    and an ending without resume, pause / teardown / destruction leave the terminal in the modes it started in. -/
+theorem teardown_restores_w (cfg : Cfg) (hk : cfg.keypadRecorded = true) (hr : cfg.repliesGuarded = true) :
+    TeardownRestoresW cfg :=
+  fun toplevel m0 ops ph hm0 hv =>
+    teardown_restores_w_partial cfg hr toplevel m0 ops ph hm0 hv (noKeypadTrigger_of_recorded cfg hk ops _)
+
+/-- The hand-over statement over the wide protocol: both generalisations at once. -/
+def HandoverRestoresW (cfg : Cfg) : Prop :=
+  ∀ (toplevel : Bool) (m0 : VModes) (ops : List Op) (ph : PhaseW), m0.handover = true →
+    validFromW .running ops = some ph → ops.all (handoverOk m0) = true →
+    ((ph = .paused ∨ ph = .stopped) → restoredOk (vtAfter cfg toplevel m0 ops) m0 = true) ∧
+    restoredOk (VT.feed (vtAfter cfg toplevel m0 ops) (sysAfter cfg toplevel ops).destroy) m0 = true
+
+theorem handover_restores_w_partial (cfg : Cfg) (hr : cfg.repliesGuarded = true) (toplevel : Bool) (m0 : VModes)
+    (ops : List Op) (ph : PhaseW) (hm0 : m0.handover = true) (hv : validFromW .running ops = some ph)
+    (hok : ops.all (handoverOk m0) = true) (hnt : KeypadTriggerFree cfg toplevel ops) :
+    ((ph = .paused ∨ ph = .stopped) → restoredOk (vtAfter cfg toplevel m0 ops) m0 = true) ∧
+    restoredOk (VT.feed (vtAfter cfg toplevel m0 ops) (sysAfter cfg toplevel ops).destroy) m0 = true :=
+  restoresW cfg toplevel m0 ops ph hm0 (fun _ => hr) hv hnt (fun h0 => handoverOk_hidden m0 h0 ops hok)
+
+theorem handover_restores_w (cfg : Cfg) (hk : cfg.keypadRecorded = true) (hr : cfg.repliesGuarded = true) :
+    HandoverRestoresW cfg :=
+  fun toplevel m0 ops ph hm0 hv hok =>
+    handover_restores_w_partial cfg hr toplevel m0 ops ph hm0 hv hok (noKeypadTrigger_of_recorded cfg hk ops _)
+
+/-- On a terminal handed over with its cursor hidden the reply guard is not needed either: whatever the terminal
+    replies, the shadow keeps saying "visible". -/
+theorem handover_hidden_restores_w (cfg : Cfg) (toplevel : Bool) (m0 : VModes) (ops : List Op) (ph : PhaseW)
+    (hm0 : m0.handover = true) (h0 : m0.cursorVisible = false) (hv : validFromW .running ops = some ph)
+    (hok : ops.all (handoverOk m0) = true) (hnt : KeypadTriggerFree cfg toplevel ops) :
+    ((ph = .paused ∨ ph = .stopped) → restoredOk (vtAfter cfg toplevel m0 ops) m0 = true) ∧
+    restoredOk (VT.feed (vtAfter cfg toplevel m0 ops) (sysAfter cfg toplevel ops).destroy) m0 = true :=
+  restoresW cfg toplevel m0 ops ph hm0 (fun hc => by rw [h0] at hc; cases hc) hv hnt
+    (fun h0 => handoverOk_hidden m0 h0 ops hok)
+
+theorem phaseW_of_not_running (ph : Phase) (h : ph ≠ .running) : PhaseW.ofPhase ph = .paused ∨ PhaseW.ofPhase ph = .stopped := by
+  cases ph
+  · exact absurd rfl h
+  · exact Or.inl rfl
+  · exact Or.inr rfl
+
+/-- **handover_restores_history_partial.**  `HandoverRestores` (history level, documented protocol) for every history
+    that does not switch the application keypad on where the tree does not record it. -/
+theorem handover_restores_history_partial (cfg : Cfg) (hr : cfg.repliesGuarded = true) (toplevel : Bool) (m0 : VModes)
+    (ops : List Op) (ph : Phase) (hm0 : m0.handover = true) (hv : validFrom .running ops = some ph)
+    (hok : ops.all (handoverOk m0) = true) (hnt : KeypadTriggerFree cfg toplevel ops) :
+    (ph ≠ .running → restoredOk (vtAfter cfg toplevel m0 ops) m0 = true) ∧
+    restoredOk (VT.feed (vtAfter cfg toplevel m0 ops) (sysAfter cfg toplevel ops).destroy) m0 = true := by
+  have h := handover_restores_w_partial cfg hr toplevel m0 ops (PhaseW.ofPhase ph) hm0
+    (validFromW_extends ops .running ph hv) hok hnt
+  exact ⟨fun hne => h.1 (phaseW_of_not_running ph hne), h.2⟩
+
+/-- **handover_restores** (the full statement): for every hand-over state - cursor visible or hidden -, every history
+    inside the contract, the terminal reading the whole stream is back in *that* state after pause / teardown, and
+    after destruction. -/
+theorem handover_restores (cfg : Cfg) (hk : cfg.keypadRecorded = true) (hr : cfg.repliesGuarded = true) :
+    HandoverRestores cfg :=
+  fun toplevel m0 ops ph hm0 hv hok =>
+    handover_restores_history_partial cfg hr toplevel m0 ops ph hm0 hv hok (noKeypadTrigger_of_recorded cfg hk ops _)
+
+/-! #### the hypotheses are necessary -/
+
+set_option maxRecDepth 8000 in
+theorem teardown_restores_w_counterexample_keypad (p u r q : Bool) : ¬ TeardownRestoresW ⟨false, p, u, r, q⟩ := by
+  intro h
+  have h1 := (h false {} keypadHistory .running rfl rfl).2
+  revert h1
+  cases p <;> cases u <;> cases r <;> cases q <;> decide
+
+set_option maxRecDepth 8000 in
+theorem teardown_restores_w_counterexample_late_reply (k p u q : Bool) : ¬ TeardownRestoresW ⟨k, p, u, false, q⟩ := by
+  intro h
+  have h1 := (h false {} lateReplyHistory .running rfl rfl).2
+  revert h1
+  cases k <;> cases p <;> cases u <;> cases q <;> decide
+
+set_option maxRecDepth 8000 in
+theorem handover_restores_counterexample_keypad (p u r q : Bool) : ¬ HandoverRestores ⟨false, p, u, r, q⟩ := by
+  intro h
+  have h1 := (h false {} keypadHistory .running rfl rfl (by decide)).2
+  revert h1
+  cases p <;> cases u <;> cases r <;> cases q <;> decide
+
+set_option maxRecDepth 8000 in
+/-- The late reply is one a terminal handed over visible does send (`replyConsistent`). -/
+theorem handover_restores_counterexample_late_reply (k p u q : Bool) : ¬ HandoverRestores ⟨k, p, u, false, q⟩ := by
+  intro h
+  have h1 := (h false {} lateReplyHistory .running rfl rfl (by decide)).2
+  revert h1
+  cases k <;> cases p <;> cases u <;> cases q <;> decide
+
+/-! #### non-vacuity -/
+
+/-- Hidden at hand-over; replies (one while paused, read later), modes switched on while running and while paused, a
+    pen and text while paused, the toplevel's tick without setup, resume, more settings, pause, and no resume. -/
+def hiddenPausedHistory : List Op :=
+  [.replyMode 25 2, .ctl (some .altscreen) 1, .pause, .ctl (some .mouse) 3, .replyMode 12 1,
+   .setpen (fun a => if a = .bold then some 1 else none), .print [104], .tick true, .resume, .replyShape 2,
+   .ctl (some .altscreen) 0, .pause, .ctl (some .altscreen) 1, .ctl (some .mouse) 1,
+   .chpen (fun a => if a = .italic then some 1 else none)]
+
+set_option maxRecDepth 16000 in
+example : hiddenM0.handover = true ∧ validFrom .running hiddenPausedHistory = none ∧
+    validFromW .running hiddenPausedHistory = some .pausedOps ∧
+    hiddenPausedHistory.all (handoverOk hiddenM0) = true ∧ KeypadTriggerFree Cfg.tree true hiddenPausedHistory ∧
+    (vtAfter Cfg.tree true hiddenM0 hiddenPausedHistory).modes.altscreen = true ∧
+    (vtAfter Cfg.tree true hiddenM0 hiddenPausedHistory).modes.mouse = 1000 ∧
+    (vtAfter Cfg.tree true hiddenM0 hiddenPausedHistory).attrs .italic = 1 ∧
+    (vtAfter Cfg.tree true hiddenM0 hiddenPausedHistory).modes.cursorVisible = false := by decide
+
+/-- The theorem applies to it on the working tree: destruction leaves the terminal on the primary screen, without
+    mouse reporting, in the default rendition - and with the cursor hidden, as it was handed over. -/
+example : restoredOk (VT.feed (vtAfter Cfg.tree true hiddenM0 hiddenPausedHistory)
+    (sysAfter Cfg.tree true hiddenPausedHistory).destroy) hiddenM0 = true :=
+  (handover_hidden_restores_w Cfg.tree true hiddenM0 hiddenPausedHistory .pausedOps rfl rfl (by decide) (by decide) (by decide)).2
+
+example : restoredOk (VT.feed (vtAfter Cfg.repaired false {} pausedMouseHistory) (sysAfter Cfg.repaired false pausedMouseHistory).destroy) {} = true :=
+  (teardown_restores_w Cfg.repaired rfl rfl false {} pausedMouseHistory .pausedOps rfl (by decide)).2
+
+example : restoredOk (vtAfter Cfg.repaired false {} (pausedPenHistory ++ [.teardown])) {} = true := by
+  have hv : validFromW .running (pausedPenHistory ++ [.teardown]) = some .stopped := by decide
+  exact (teardown_restores_w Cfg.repaired rfl rfl false {} _ .stopped rfl hv).1 (Or.inr rfl)
+
+/-- … on the working tree (keypad not recorded) through the partial theorem: the history leaves the keypad alone. -/
+example : restoredOk (vtAfter Cfg.tree false {} (pausedPenHistory ++ [.teardown])) {} = true := by
+  have hv : validFromW .running (pausedPenHistory ++ [.teardown]) = some .stopped := by decide
+  have hk : KeypadTriggerFree Cfg.tree false (pausedPenHistory ++ [.teardown]) := by decide
+  exact (teardown_restores_w_partial Cfg.tree (by decide) false {} _ .stopped rfl hv hk).1 (Or.inr rfl)
+
+example : restoredOk (vtAfter Cfg.tree false hiddenM0 hiddenHistory) hiddenM0 = true :=
+  (handover_restores_history_partial Cfg.tree (by decide) false hiddenM0 hiddenHistory .stopped rfl (by decide) (by decide) (by decide)).1 (by decide)
+
+example : restoredOk (VT.feed (vtAfter Cfg.repaired true hiddenM0 hiddenHistory) (sysAfter Cfg.repaired true hiddenHistory).destroy) hiddenM0 = true :=
+  (handover_restores Cfg.repaired rfl rfl true hiddenM0 hiddenHistory .stopped rfl (by decide) (by decide)).2
+
+/-- `KeypadTriggerFree` excludes exactly the keypad counterexamples. -/
+example : ¬ KeypadTriggerFree ⟨false, true, true, true, true⟩ false keypadHistory ∧
+    ¬ KeypadTriggerFree ⟨false, true, true, true, true⟩ true [.pause, .tick false] ∧
+    KeypadTriggerFree ⟨false, true, true, true, true⟩ true [.pause, .tick true, .ctl (some .keypadApp) 0] := by decide
 
 end Tickit.Props.C12
